@@ -300,6 +300,14 @@ func env(tk types.TokenKeeper) (keeper.Keeper, sdk.Context) {
 
 var theCtx sdk.Context
 
+// Params reads the module parameters straight from the parameter store (not through the keeper's getters, which
+// are code under test).
+func Params(ctx sdk.Context) types.Params {
+	var p types.Params
+	App.GetSubspace(types.ModuleName).GetParamSet(ctx, &p)
+	return p
+}
+
 // CheckOverflow switches on the model of the SDK's 255-bit range checks (panics "Int overflow") for the
 // rest of the path; natively the SDK makes them anyway.
 func CheckOverflow() {}
